@@ -49,8 +49,9 @@ type c19Case struct {
 }
 
 func c19Probe(c *Ctx) string {
-	p := filepath.Join(c.VerifDir, ".bin", "setprobe")
-	if _, err := os.Stat(p); err == nil && os.Getenv("VERIF_REBUILD_PROBE") == "" {
+	// always rebuilt: the probe links the storage code of the tree under test
+	p := filepath.Join(c.VerifDir, ".bin", fmt.Sprintf("setprobe-%d", os.Getpid()))
+	if _, err := os.Stat(p); err == nil {
 		return p
 	}
 	cmd := exec.Command("go", "build", "-o", p, "./cmd/setprobe")
@@ -124,6 +125,14 @@ func observe(dir string) (map[string][]byte, error) {
 	for n := range m {
 		if !listed[n] && !isTemp(n) {
 			return nil, fmt.Errorf("file %q is not listed as a key", n)
+		}
+		if base := strings.TrimSuffix(n, ".tmp"); isTemp(n) {
+			// a temporary sibling left behind by the crash is not a value of its key
+			if _, ok := m[base]; !ok {
+				if b, err := st.Get(base); err == nil {
+					return nil, fmt.Errorf("Get(%q) returns %d bytes (content of the abandoned temporary file), the key has no file", base, len(b))
+				}
+			}
 		}
 	}
 	return m, nil
@@ -300,6 +309,7 @@ func opsTokens(ops []fstrace.Op) string {
 }
 
 func checkC19(c *Ctx) {
+	storageFaults(c, "C19")
 	c.SetRule("trace: one case = one real storage write (Set / SaveEntity / the three Sets of Config.save) on a seeded directory " +
 		"(old value absent / empty / shorter / equal / longer, bystander files, sometimes a stale temporary sibling), recorded with strace; " +
 		"per case: checkTrace on every write's segment, and for every prefix k a real-syscall replay read back through the real Get/KeysWithSuffix " +
@@ -507,7 +517,9 @@ func checkC19(c *Ctx) {
 		fstrace.Replay(d, ops)
 		st, err := observe(d)
 		if err != nil {
-			fatal("observe: %v", err)
+			c.Violate("the storage API does not show the directory as it is on disk", fmt.Sprintf("fsrand#%d", len(lines)), map[string]interface{}{"initial_directory": showState(init), "operations": opsTokens(ops)}, "files = keys, temporary siblings hidden and never read", err.Error())
+			os.RemoveAll(filepath.Dir(d))
+			continue
 		}
 		os.RemoveAll(filepath.Dir(d))
 		lines = append(lines, fmt.Sprintf("fs apply %d %s %s", len(ops), showState(init), opsTokens(ops)))
